@@ -14,7 +14,13 @@ import (
 	"time"
 )
 
-const Root = "/verif"
+// Root is the verification directory (the working directory of the check script).
+var Root = func() string {
+	if d, err := os.Getwd(); err == nil {
+		return d
+	}
+	return "/verif"
+}()
 
 type Finding struct {
 	Property  string `json:"property"`
